@@ -103,10 +103,13 @@ Expected(f, pos) ==
     [] OTHER -> "either"
 
 Documented == {"DznJsonError", "NamespaceIdsTypeError"}
+\* What the property demands: never an internal exception, and the two out-event rules are always enforced.
+\* The other verdicts of Expected describe what the shipped parser does; a disagreement there is reported by the
+\* harness as a model/code disagreement (not a violation: the statement allows "file contents or documented error").
+OutEventRules == {"out-event-valued", "out-event-out-param", "out-event-valued-case", "out-event-out-param-case"}
 Allowed(f, pos, outcome) ==
   /\ outcome \in Documented \cup {"ok"}                                        \* never an internal exception
-  /\ (Expected(f, pos) = "reject" => outcome \in Documented)
-  /\ (Expected(f, pos) = "accept" => outcome = "ok")
+  /\ (f.kind \in OutEventRules => outcome \in Documented)                      \* always refused
 
 CONSTANT Mode
 VARIABLES fc, t, l
